@@ -338,6 +338,10 @@ pub fn make_foreign_fixture_sized(ch: &Choices, seekable: bool, small: bool) -> 
             (7, 13, Some(7)),
         ],
     );
+    let bps_from_streaminfo = ch.draw("rdg.bps.si", 6) == 5;
+    if bps_from_streaminfo {
+        probe("rd_depth_coded_as_see_streaminfo");
+    }
     // the last frame may be short
     if ch.draw("rdg.last.short", 2) == 1 {
         *sizes.last_mut().unwrap() = 1 + ch.draw("rdg.last", base.max(17) as u64 - 1) as usize;
@@ -356,6 +360,9 @@ pub fn make_foreign_fixture_sized(ch: &Choices, seekable: bool, small: bool) -> 
         m.spec.bend.variable = variable;
         m.spec.rate_code = rate_code;
         m.spec.bend.rate_ext = rate_ext;
+        if bps_from_streaminfo {
+            m.spec.bps_code = 0; // "take the bit depth from STREAMINFO": legal inside a file
+        }
         frames.push(refflac::write_frame(&m.spec));
         for i in 0..*n {
             for c in &m.chans {
@@ -448,6 +455,7 @@ pub fn make_foreign_fixture_sized(ch: &Choices, seekable: bool, small: bool) -> 
     cfg.rate = rate;
     cfg.block = base as u16;
     cfg.declare_total = true;
+    cfg.offset = 0;
     Some(Fixture { cfg, pcm, bytes, shape })
 }
 
